@@ -20,7 +20,7 @@ def get_pca_rank_one_estimate(covariance_matrix, **atf_kwargs):
 
     # Wang et al. "Rank-1 Constrained [...]" just below Eq. 25
     scale = np.trace(covariance_matrix, axis1=-1, axis2=-2)
-    scale /= np.trace(cov_rank1, axis1=-1, axis2=-2)
+    scale = scale / np.trace(cov_rank1, axis1=-1, axis2=-2)
     return scale[..., None, None] * cov_rank1
 
 
@@ -64,7 +64,7 @@ def get_gev_rank_one_estimate(
 
     # Wang et al. "Rank-1 Constrained [...]" just below Eq. 25
     scale = np.trace(covariance_matrix, axis1=-1, axis2=-2)
-    scale /= np.trace(cov_rank1, axis1=-1, axis2=-2)
+    scale = scale / np.trace(cov_rank1, axis1=-1, axis2=-2)
     return scale[..., None, None] * cov_rank1
 
 
